@@ -42,6 +42,7 @@ func loadPkg(dir string) (*pkgSrc, error) {
 		if err != nil {
 			return nil, err
 		}
+		StripYields(f)
 		for _, d := range f.Decls {
 			switch x := d.(type) {
 			case *ast.GenDecl:
